@@ -85,7 +85,14 @@ def main(pid, tier, seed, replay):
         r = rng.fork("case%d" % i)
         n, scripts = gen_case(r, 4 if i % 3 else 3, 3 if i % 2 else 4)
         cases.append((n, scripts, "random %d %d" % (r.next() % (1 << 31), r.choice([20, 50, 80]))))
-    rc, out, err = C.sh([harness], input="".join(line_for(*c) + "\n" for c in cases).encode(), timeout=1800)
+    if tier == "thorough":
+        # systematic part: every interleaving of 2 clients x 1 block (all 49 block pairs): all tid strings of length 10
+        # (entries naming a finished client are skipped by the scheduler, so this covers every schedule, with repeats)
+        for a in BLOCKS:
+            for b in BLOCKS:
+                for bits in range(1 << 10):
+                    cases.append((2, [[a], [b]], " ".join(str((bits >> k) & 1) for k in range(10)) + " 0 1 0 1 0 1 0 1"))
+    rc, out, err = C.sh([harness], input="".join(line_for(*c) + "\n" for c in cases).encode(), timeout=6000)
     ilines = out.splitlines()
     if rc != 0 or len(ilines) != len(cases):
         chk.violation("lock harness died (rc=%s) after %d of %d cases: %s" % (rc, len(ilines), len(cases), err[-300:]),
